@@ -28,6 +28,7 @@ func ruleC03(c *Check) {
 	c.availabilityPairs("C03.4")
 	c.paramSetExact("C03.4")
 	c.fractionValidators("C03.2")
+	c.custodyBeforeRecord("C03.7")
 	c.paramGettersExact("C03.4", "KeyArbitrationTimeLimit", "KeyComplaintRetrospect", "KeySlashFraction")
 }
 
@@ -465,4 +466,50 @@ func (c *Check) custodyErrorsChecked(rule string) {
 		}
 	}
 	c.req(n >= 6, rule, "custody-call-sites", token.NoPos, fmt.Sprintf("%d handler-reachable custody call sites", n))
+}
+
+// custodyBeforeRecord (C03.7): where a function both takes coins into deposit custody and stores the binding that records
+// them, the transfer comes first — its failure returns before anything was stored. A function that stores the enlarged
+// (and re-enabled) binding and ends with `return bank.Send…` leaves, when the owner cannot pay, a record of coins that never
+// arrived; inside a message the failure reverts the store, but the keeper functions are also called directly by other
+// modules and block hooks.
+func (c *Check) custodyBeforeRecord(rule string) {
+	n := 0
+	for f := range c.persistUnits("0x02", "ServiceBinding") {
+		var badPos token.Pos
+		bad := false
+		has := false
+		for _, pa := range c.P.PathsOf(f) {
+			iSet, iIn := -1, -1
+			for i, ev := range pa.Events {
+				if ev.Kind != EvCall {
+					continue
+				}
+				for _, e := range c.P.effectsOfEvent(f, ev) {
+					if e.Kind == "store" && e.Op == "Set" && e.Family == "0x02" && iSet < 0 {
+						iSet = i
+					}
+					if e.Kind == "bank" && e.Op == "SendCoinsFromAccountToModule" && isModuleAccount(e.To, "DepositAccName") && iIn < 0 {
+						iIn = i
+					}
+				}
+			}
+			if iIn >= 0 {
+				has = true
+				if iSet >= 0 && iSet < iIn {
+					bad, badPos = true, pa.RetPos
+				}
+			}
+		}
+		if !has {
+			continue
+		}
+		n++
+		pos := f.Body.Pos()
+		if bad {
+			pos = badPos
+		}
+		c.req(!bad, rule, unitConstruct(f, "custody-before-record"), pos, "the transfer into deposit custody precedes the store of the binding that records it")
+	}
+	c.req(n >= 2, rule, "custody-and-record-functions", token.NoPos, fmt.Sprintf("%d functions both take a deposit and store the binding", n))
 }
